@@ -501,7 +501,18 @@ func execC15Curve(c *vf.Ctx, cs c15Case, fail func(kind, class, what, obs, req s
 		op = "combinedmult"
 		inDomain = on1
 		if inDomain {
-			want = grpK1Add(grpK1Mul(new(big.Int).SetBytes(cs.K), grpK1Base()), grpK1Mul(new(big.Int).SetBytes(cs.K2), p1))
+			aG, bP := grpK1Mul(new(big.Int).SetBytes(cs.K), grpK1Base()), grpK1Mul(new(big.Int).SetBytes(cs.K2), p1)
+			want = grpK1Add(aG, bP)
+			switch {
+			case aG.Inf || bP.Inf:
+				c.Count("combinedMult:inf-summand")
+			case c15PtEq(aG, bP):
+				c.Count("combinedMult:equal-summands")
+			case c15PtEq(aG, c15Neg(bP)):
+				c.Count("combinedMult:opposite-summands")
+			default:
+				c.Count("combinedMult:generic")
+			}
 		}
 	}
 	if inDomain {
@@ -562,6 +573,21 @@ func c15SmallPoints() []grpK1Pt {
 		if new(big.Int).Exp(x, big.NewInt(3), k1P).Cmp(a) == 0 {
 			pts = append(pts, grpK1Pt{x, big.NewInt(u), false})
 			n++
+		}
+	}
+	// x-coordinates whose 64-bit words are all 0 or 2^63 (2^255, 2^127 + 2^63, …): the values at which a branch-free
+	// "is non-zero" fold written with the sign bit goes wrong
+	for mask := 1; mask < 16; mask++ {
+		x := new(big.Int)
+		for w := 0; w < 4; w++ {
+			if mask>>w&1 == 1 {
+				x.SetBit(x, 64*w+63, 1)
+			}
+		}
+		a := new(big.Int).Mod(new(big.Int).Add(new(big.Int).Exp(x, big.NewInt(3), k1P), big.NewInt(7)), k1P)
+		y := new(big.Int).Exp(a, e, k1P)
+		if new(big.Int).Mod(new(big.Int).Mul(y, y), k1P).Cmp(a) == 0 {
+			pts = append(pts, grpK1Pt{x, y, false})
 		}
 	}
 	c15SmallPts = pts
@@ -779,6 +805,29 @@ func genC15(r *vf.Rand) c15Case {
 			P = grpK1Inf()
 		case 4:
 			Q = c15EqualY(r, P)
+		}
+		if op == "combinedMult" && r.Intn(3) == 0 {
+			// coinciding / opposite summands: P = [d]G and s1 = ±s2·d mod n, so [s1]G = ±[s2]P — the final
+			// addition of CombinedMult is a doubling or yields infinity
+			d := new(big.Int).SetBytes(r.Bytes(32))
+			if r.Intn(3) == 0 {
+				d.SetInt64(int64(1 + r.Intn(3)))
+			}
+			d.Mod(d, k1N)
+			if d.Sign() == 0 {
+				d.SetInt64(1)
+			}
+			P = grpK1Mul(d, grpK1Base())
+			s2 := new(big.Int).SetBytes(cs.K2)
+			s1 := new(big.Int).Mul(new(big.Int).Mod(s2, k1N), d)
+			s1.Mod(s1, k1N)
+			if r.Intn(3) == 0 {
+				s1.Sub(k1N, s1).Mod(s1, k1N)
+			}
+			cs.K = s1.Bytes()
+			if r.Intn(4) == 0 {
+				cs.K = append(make([]byte, 1+r.Intn(3)), cs.K...)
+			}
 		}
 		px, py := grpK1Affine(P)
 		qx, qy := grpK1Affine(Q)
